@@ -362,10 +362,62 @@ def _sp_inv(L):
                wa1 >= wa0)
 
 
+def _lsock_ctor(kind):
+    def f(ex, st, self_v, args, kwargs, node):
+        """TCPSocket / UnixSocket(addr, conf, log, fd=None) summarised (BaseSocket.__init__: create or adopt the socket, then
+        set_options / bind - verified separately): with fd it adopts that descriptor and cannot fail with EADDRINUSE; without
+        it binds a NEW socket and may fail with any errno"""
+        fd = kwargs.get("fd", args[3] if len(args) > 3 else NONE)
+        k = st.ghost["made_n"]
+        outs = []
+        if isinstance(fd, SNone):
+            bad = st.fork()
+            e = fresh_int("bind.errno")
+            bad.ghost["attempts"] = bad.ghost["attempts"] + 1
+            outs.append(ex.res_exc(bad, SExc(OSError, (SInt(e),), {"errno": SInt(e), "args": STuple([SInt(e)])})))
+            st.ghost["attempts"] = st.ghost["attempts"] + 1
+        st.ghost["made_n"] = k + 1
+        st.ghost["made_%d" % k] = (kind, args[0], fd)
+        outs.insert(0, ex.res(st, st.alloc(HObj("MadeListener", {"g_k": k}))))
+        return outs
+    return f
+
+
+def _fromfd(ex, st, self_v, args, kwargs, node):
+    return R1(ex, st, st.alloc(HObj("RawSock", {"g_fd": args[0]})))
+
+
+class RawSock(ClassModel):
+    def call(self, ex, st, self_v, meth, args, kwargs, node):
+        if meth == "getsockname":
+            o = st.obj(self_v)
+            return [ex.res(st, STuple([Opaque("host"), SInt(fresh_int("port"))]))]
+        return None
+
+
 @contract("gunicorn.sock:create_sockets", props=("C10", "C14"))
 class CreateSockets(Contract):
-    """TRUSTED here: binds / adopts listening sockets and returns the list (its pieces set_options / UnixSocket.bind are verified)"""
-    trusted = True
+    """with inherited descriptors: exactly one listener per descriptor, in order, each ADOPTING its descriptor (nothing is
+    bound anew, the configured addresses are ignored); without: one new listener per configured address, in order, each
+    tried at most five times, and the process exits with status 1 if an address cannot be bound"""
+
+    def cases(self, env):
+        from pyvc.exec import Unsupported as _U
+        out = []
+        for with_fds in (True, False):
+            st = State()
+            env.class_models.update({"RawSock": RawSock(), "MadeListener": ClassModel()})
+            STUBS.update({"socket.fromfd": _fromfd, "ctor:TCPSocket": _lsock_ctor("tcp"), "ctor:UnixSocket": _lsock_ctor("unix"),
+                          "ctor:TCP6Socket": _lsock_ctor("tcp6")})
+            conf = mk_cfg(env, st)
+            addr0 = STuple([strops.fresh_str(st, "bind0.host", True, canonical=True), SInt(z3.Int("bind0.port"))])
+            addr1 = strops.fresh_str(st, "bind1.path", True, canonical=True)
+            st.obj(conf).fields.update({"address": st.alloc(HList([addr0, addr1])), "certfile": NONE, "keyfile": NONE})
+            fds = st.alloc(HList([SInt(z3.Int("fd0")), SInt(z3.Int("fd1"))])) if with_fds else NONE
+            st.ghost.update({"made_n": 0, "attempts": iv(0), "now": z3.Real("now0")})
+            out.append(("inherited-fds" if with_fds else "fresh-binds", st, {"conf": conf, "log": mk_logger(env, st), "fds": fds},
+                        {"with_fds": with_fds, "addrs": [addr0, addr1]}))
+        return out
 
     def raises(self, c):
         return [(SystemExit, None), (OSError, None)]
@@ -375,6 +427,34 @@ class CreateSockets(Contract):
 
     def result_shape(self, c):
         return c.st.alloc(HList([]))
+
+    def exc_post(self, c):
+        if c.mode == "call" or c.exc is None or c.exc.cls is not SystemExit:
+            return []
+        code = c.exc.fields.get("code")
+        return [("gives-up-with-exit-status-1-only-without-inherited-descriptors", And(TRUE if not c.g["with_fds"] else FALSE, code.t == 1 if isinstance(code, SInt) else FALSE)),
+                ("an-address-is-tried-five-times-before-giving-up", c.st.ghost["attempts"] >= 5)]
+
+    def post(self, c):
+        if c.mode == "call":
+            return []
+        g = c.st.ghost
+        items = c.ex.concrete_items(c.st, c.result)
+        if items is None:
+            return [("returns-a-list-of-listeners", FALSE)]
+        made = [g["made_%d" % c.st.obj(x).fields["g_k"]] for x in items if isinstance(x, Ref) and isinstance(c.st.obj(x), HObj) and c.st.obj(x).cls == "MadeListener"]
+        out = [("every-returned-element-is-a-listener-built-here", TRUE if len(made) == len(items) else FALSE)]
+        if c.g["with_fds"]:
+            ok = len(made) == 2 and all(isinstance(m[2], SInt) for m in made) and made[0][2].t.eq(z3.Int("fd0")) and made[1][2].t.eq(z3.Int("fd1"))
+            out += [("one-listener-per-inherited-descriptor-in-order,each-adopting-it", TRUE if ok else FALSE),
+                    ("nothing-is-bound-anew", g["attempts"] == 0)]
+        else:
+            a0, a1 = c.g["addrs"]
+            ok = len(made) == 2 and all(isinstance(m[2], SNone) for m in made) and made[0][1] is a0 and made[1][1] is a1 \
+                and made[0][0] == "tcp" and made[1][0] == "unix"
+            out += [("one-new-listener-per-configured-address-in-order", TRUE if ok else FALSE),
+                    ("at-most-five-attempts-per-address", g["attempts"] <= 10)]
+        return out
 
 
 def _opaque_str(ex, st, self_v, args, kwargs, node):
